@@ -20,7 +20,7 @@ EXTENDS Exec, Json
 
 TraceLog == ndJsonDeserialize("trace.ndjson")
 TP == {1, 2}
-TC == 0..12
+TC == 0..16
 TModes == {TRUE, FALSE}
 TOps == {"submit", "start", "wait", "waitto", "plan", "status"}
 
@@ -36,7 +36,7 @@ Fresh(rec) ==
   /\ call' = [c \in Callers |-> Idle] /\ ncalls' = 0 /\ crashes' = 0
   /\ okstart' = [p \in Plans |-> FALSE]
   /\ inv' = [p \in Plans |-> 0] /\ redo' = [p \in Plans |-> 0] /\ fresh' = [p \in Plans |-> 0] /\ lost' = [p \in Plans |-> 0]
-  /\ panicked' = FALSE /\ ev' = NoEv
+  /\ panicked' = FALSE /\ faults' = [p \in Plans |-> 0] /\ ev' = NoEv
 
 TReset == Line.ev = "Config" /\ Fresh(Line.recovery)
 
@@ -69,7 +69,10 @@ TRestart ==
              /\ idx' = [p \in Plans |-> IF p \in ag THEN "FA" ELSE IndexRepaired(st, ix)[p]]
              /\ Boot(st, IndexRepaired(st, ix), Line.recovery, ag, gen)
   /\ ev' = [ev |-> "XRestart"]
-  /\ UNCHANGED <<old, closed, ncalls, crashes, Hist, panicked>>
+  /\ UNCHANGED <<old, closed, ncalls, crashes, Hist, panicked, faults>>
+
+\* the harness arms / disarms a failure of the next read of a plan from storage
+TFault == (Line.ev = "XFault" /\ Arm(Line.p)) \/ (Line.ev = "XFaultClear" /\ IF faults[Line.p] > 0 THEN Disarm(Line.p) ELSE UNCHANGED vars)
 
 (* A durable write, logged by the vault spy AFTER it was made (so the model's own, silent, write step came earlier):   *)
 (* only a plan somebody runs in this process lifetime is ever written to - "plans never started stay untouched,      *)
@@ -84,7 +87,7 @@ TWrite ==
   /\ UNCHANGED vars
 
 Silent == (Internal \/ (\E c \in Callers : WGiveUp(c)) \/ (\E p \in Plans : Age(p))) /\ UNCHANGED l
-TNext == \/ More /\ (TReset \/ TCall \/ TRet \/ TPStart \/ TPEnd \/ TRestart \/ TWrite) /\ l' = l + 1
+TNext == \/ More /\ (TReset \/ TCall \/ TRet \/ TPStart \/ TPEnd \/ TRestart \/ TWrite \/ TFault) /\ l' = l + 1
          \/ Silent
 TInit == Init /\ l = 1
 TSpec == TInit /\ [][TNext]_tvars
